@@ -15,9 +15,10 @@ CONSTANTS
   WaitActivation = TRUE
   FixNonRequest = FALSE
   FixCloseReason = TRUE
+  DrainRemainder = TRUE
 INIT Init
 NEXT Next
 VIEW view
-INVARIANTS TypeOK POnePerFrame PContent PInvocations PWholeFrames PRespFIFO PNotesFIFO PAfterActivation PNoNoteAfterUnsub PClientView PReadLimit PInternalClose PCloseIsLast PureInternalClose
+INVARIANTS TypeOK POnePerFrame PContent PInvocations PWholeFrames PRespFIFO PNotesFIFO PAfterActivation PNoNoteAfterUnsub PClientView PReadLimit PInternalClose PCloseIsLast PDocumentedExit PLaterAnswered PDrained PureInternalClose
 PROPERTIES PNoWriteAfterExit PExitFinal PErrorMeansNothingWritten
 CHECK_DEADLOCK FALSE
